@@ -413,6 +413,9 @@ impl PropImpl for C11 {
          every applicable operation (operand names x/y) on 10 start layouts. Non-trivial: >= 2 model-changing steps of which one adds/removes an entry or alternative at the first or last position or next to \
          an empty entry/substvar/newline. Distinct by hash of (start text, history).".into()
     }
+    fn expected_labels(&self) -> Vec<&'static str> {
+        vec!["op:push", "op:insert", "op:replace", "op:remove_entry", "op:Entry::remove", "op:Entry::push", "op:Entry::replace", "op:Entry::remove_relation", "op:Relation::remove", "op:set_version(Some)", "op:set_version(None)", "op:drop_constraint", "op:set_archqual", "op:set_architectures", "op:add_profile", "operand:parsed", "operand:constructed", "operand:builder", "operand:parsed-with-surrounding-whitespace", "start:empty-field", "start:has-substvar", "start:has-empty-entry", "start:has-newline"]
+    }
     fn budget(&self, tier: Tier) -> Budget {
         Budget { cases_per_lane: if tier == Tier::Quick { 10000 } else { 40_000 }, tape_max: 600, cpu_s: 10 }
     }
